@@ -114,12 +114,12 @@ ADD = {
          ""),
  "C06": ("radix forwarding rule over the radix-parameterised lexer functions (R2); bound of the \\N{name} length guard compared with the longest name in the locked unicode_names2 data (N2)",
          " Also: (R2) digits, separator look-ahead and value conversion use the literal's own radix; (N2) no known Unicode name is rejected by length."),
- "C08": ("position comparisons only (nothing may branch on a position) instead of arithmetic tables; character-folding scenarios of next_char; three-way agreement of the feature-gated trivia kinds with the interpreted start_of_line update (S2)",
-         ""),
+ "C08": ("position comparisons only (nothing may branch on a position) instead of arithmetic tables; character-folding scenarios of next_char; three-way agreement of the feature-gated trivia kinds with the interpreted start_of_line update (S2); evaluation of every match on raw window slots over all windows of {LF, CR, letter, end of input} (N3)",
+         " Also: (N3) wherever the raw window is tested for a line break, LF and a lone CR select the same arm."),
  "C09": ("dimension analysis of TextSize values over MIR value-flow facts replaces the literal/arithmetic site tables: positions vs lengths, no position+position, no length flowing into a position sink (D1); relative-advance rule for the lexer position (N1); entry-point mode consistency (F4)",
          " (D1) replaces the tabled-site wording above: every position is start offset + consumed bytes +/- lengths by dimension analysis; (F4) each typed entry point lexes and parses in its own mode."),
  "C11": ("lexical separation of word tokens (literal pieces ending/starting in identifier characters are the reviewed ones; the lambda keyword separator interpreted over parameter-list shapes) (K1); f-string field opening decided on the rendered text, braces doubled (F1); exact integrality test of the float renderer (N1)",
-         " Also: (K1/F1) the rendering re-lexes into the intended tokens; (N1) only exact integers take the `<digits>.0` rendering."),
+         " Also: (K1/F1) the rendering re-lexes into the intended tokens; (N1) only exact integers take the `<digits>.0` rendering; (A1/A2) string and bytes constants are rendered by the escape module, whose layout pre-pass announces exactly the length its writer emits (partition evaluation shared with C16)."),
  "C12": ("order-preserving element-wise fold recognised as iterator chain, loop or helper", ""),
  "C13": ("re-basing rule for line-break searches on a tail slice (B1)", " Also: (B1) a position found in `&source[a..]` is re-based by `a` (sibling agreement of init and locate_inner)."),
  "C16": ("interpretation of is_printable with the category predicates as free booleans (P1)", " Also: (P1) printable = not Other and not Separator, depending on nothing else."),
